@@ -76,23 +76,25 @@ Section ArcsSim.
     - replace (a + S m) with (S a + m) by lia. apply IH. now apply arcs_node_rel.
   Qed.
 
-  (* same adjacency / counters / bound, [n] radii each: create_arcs gives the same arcs, radii, bound and maxima *)
+  (* same adjacency / counters, [n] radii each: create_arcs gives the same arcs, radii, bound and maxima
+     (the bound found in the graph is irrelevant: create_arcs resets it) *)
   Theorem create_arcs_sim thr one k n w (g1 g2 : @knn W) :
-    k_adj g1 = k_adj g2 -> k_nplat g1 = k_nplat g2 -> k_gdens g1 = k_gdens g2 ->
+    k_adj g1 = k_adj g2 -> k_nplat g1 = k_nplat g2 ->
     length (k_radius g1) = n -> length (k_radius g2) = n ->
     let r1 := create_arcs ltb zero top thr one k n w g1 in
     let r2 := create_arcs ltb zero top thr one k n w g2 in
     k_adj (fst r1) = k_adj (fst r2) /\ k_nplat (fst r1) = k_nplat (fst r2) /\
     k_gdens (fst r1) = k_gdens (fst r2) /\ k_radius (fst r1) = k_radius (fst r2) /\ snd r1 = snd r2.
   Proof.
-    intros Ha Hn Hg Hl1 Hl2. cbv zeta. unfold create_arcs.
-    pose proof (arcs_fold_rel n k n w n 0 (g1, repeat zero k, repeat 0 (S k)) (g2, repeat zero k, repeat 0 (S k))) as H.
+    intros Ha Hn Hl1 Hl2. cbv zeta. unfold create_arcs, create_arcs_acc.
+    pose proof (arcs_fold_rel n k n w n 0 (reset_gdens zero g1, repeat zero k, repeat 0 (S k))
+                  (reset_gdens zero g2, repeat zero k, repeat 0 (S k))) as H.
     cbn [Nat.add] in H.
-    destruct (fold_left (node k n w) (seq 0 n) (g1, repeat zero k, repeat 0 (S k))) as [[h1 m1] n1].
-    destruct (fold_left (node k n w) (seq 0 n) (g2, repeat zero k, repeat 0 (S k))) as [[h2 m2] n2].
+    destruct (fold_left (node k n w) (seq 0 n) (reset_gdens zero g1, repeat zero k, repeat 0 (S k))) as [[h1 m1] n1].
+    destruct (fold_left (node k n w) (seq 0 n) (reset_gdens zero g2, repeat zero k, repeat 0 (S k))) as [[h2 m2] n2].
     unfold arcs_rel in H. cbn [fst snd] in H.
     destruct H as (A1 & A2 & A3 & A4 & A5 & A6 & A7 & A8).
-    { repeat split; try assumption; try reflexivity. intros j Hj; lia. }
+    { unfold reset_gdens. knn_cbn. repeat split; try assumption; try reflexivity. intros j Hj; lia. }
     cbn [fst snd]. knn_cbn. rewrite A3.
     repeat split; try assumption.
     apply (list_eq_nth _ _ zero); [lia|]. intros j Hj. apply A6. lia.
@@ -119,9 +121,9 @@ Section ArcsSim.
   Lemma create_arcs_radius_len thr one k n w (g : @knn W) :
     length (k_radius (fst (create_arcs ltb zero top thr one k n w g))) = length (k_radius g).
   Proof.
-    unfold create_arcs.
-    pose proof (arcs_fold_radius_len k n w (seq 0 n) (g, repeat zero k, repeat 0 (S k))) as H.
-    destruct (fold_left (node k n w) (seq 0 n) (g, repeat zero k, repeat 0 (S k))) as [[h1 m1] n1].
+    unfold create_arcs, create_arcs_acc.
+    pose proof (arcs_fold_radius_len k n w (seq 0 n) (reset_gdens zero g, repeat zero k, repeat 0 (S k))) as H.
+    destruct (fold_left (node k n w) (seq 0 n) (reset_gdens zero g, repeat zero k, repeat 0 (S k))) as [[h1 m1] n1].
     cbn [fst snd] in *. knn_cbn. exact H.
   Qed.
 End ArcsSim.
